@@ -25,7 +25,7 @@ PROPERTY = 'C17'
 TECHNIQUE = 'symbolic STATE: every state_dict tensor of the checkpointed model is a z3 real; load into a fresh wrapper; output / cost / summary / export equality for all states and inputs as unsat queries'
 FUNCTIONS_ENCODED = ['nn.Module.state_dict/load_state_dict on PIT / MPS / SuperNet wrappers', 'PIT/MPS/SuperNet.forward/get_cost/summary/export', 'MPSBaseQtz.update_softmax_options', 'SuperNet.update_softmax_options',
                      'PIT.discrete_cost setter', 'register_buffer / nn.Parameter sites of maskers, quantizers, combiners, features calculators']
-BOUNDS = {'quick': 'PIT T1(K=2) and L1 (Linear+BN), MPS ML per-layer, SuperNet S(2,conv); prefixes: none, temperature := T (symbolic in [0.05,20], and the concrete values 1/2 and 3 for MPS), MPS also compared in training mode with soft sampling (re-sampled coefficients, cost), hard := True, discrete_cost := True, gumbel := True; eval mode',
+BOUNDS = {'quick': 'PIT T1(K=2) and L1 (Linear+BN), MPS ML per-layer, SuperNet S(2,conv); prefixes: none, temperature := T (symbolic in [0.05,20], and the concrete values 1/2 and 3 for MPS), MPS also compared in training mode with soft sampling (re-sampled coefficients, cost), hard := True, discrete_cost := True, gumbel := True; eval mode; prefixes train_net_only (PIT, MPS, SuperNet) and a per-layer temperature schedule (MPS); tensors sharing storage stay one tensor in the symbolic state',
           'thorough': 'PIT T2 / D2, MPS MD per-layer and per-channel, SuperNet S(3,mix) / 2 blocks; prefixes of length 2'}
 OUTSIDE = ['optimizer internal state', 'RNG state', 'train-mode forward arithmetic', 'constructor arguments (the fresh wrapper is built with the same ones; only options changed AFTER construction count)']
 ASSUMPTIONS = ['BatchNorm running variances >= 0', 'MPS / SuperNet coefficient margins >= 0.05 where an arg-max decides']
